@@ -218,11 +218,18 @@ func registerSynthetic() {
 			if len(args) == 1 && args[0] == "e" {
 				return nil, errors.New("vfail: setup failed")
 			}
+			if len(args) == 1 && args[0] == "h" { // an error together with a usable handler (as dns does on a bad argument)
+				h, _ := vtestSetup4("p")
+				return h, errors.New("vfail: setup failed, handler returned anyway")
+			}
 			return nil, nil
 		}
 		fail6 := func(args ...string) (handler.Handler6, error) {
 			if len(args) == 1 && args[0] == "e" {
 				return nil, errors.New("vfail: setup failed")
+			}
+			if len(args) == 1 && args[0] == "h" {
+				return h6, errors.New("vfail: setup failed, handler returned anyway")
 			}
 			return nil, nil
 		}
@@ -596,6 +603,7 @@ type req4spec struct {
 	bflag         bool
 	chaddr        []byte
 	xid           uint32
+	flags         uint16 // when non-zero: the raw flags field (reserved bits included)
 	opt61, opt82  []byte
 	extra         map[uint8][]byte
 	htype         uint16
@@ -613,6 +621,9 @@ func buildReq4(s req4spec) []byte {
 	}
 	if s.bflag {
 		m.SetBroadcast()
+	}
+	if s.flags != 0 {
+		m.Flags = s.flags
 	}
 	if s.chaddr != nil {
 		m.ClientHWAddr = s.chaddr
@@ -644,6 +655,9 @@ func randReq4(c *Ctx) req4spec {
 	s.giaddr = ips[r.Intn(len(ips))]
 	s.ciadr = ips[r.Intn(len(ips))]
 	s.bflag = r.Bool()
+	if r.Pct(25) {
+		s.flags = []uint16{0x0001, 0x8001, 0x7fff, 0xffff, 0x4000, uint16(r.U64())}[r.Intn(6)] // reserved bits set
+	}
 	if r.Pct(40) {
 		s.opt61 = r.Bytes(1 + r.Intn(9))
 	}
@@ -783,7 +797,7 @@ func runLoadPlugins(c *Ctx) {
 	pool := []item{
 		{"vtest", []string{"p"}, "BPass"}, {"vtest", []string{"m", "3"}, "BMark 3"}, {"vtest", []string{"s", "1"}, "BStop 1"},
 		{"vtest", []string{"x"}, "BStopNil"}, {"vtest", []string{"k"}, "BNak"}, {"vtest", []string{"r", "2"}, "BReplace 2"},
-		{"v6only", nil, ""}, {"vdual", nil, "BPass"}, {"vfail", []string{"e"}, "!"}, {"vfail", []string{"z"}, "!"},
+		{"v6only", nil, ""}, {"vdual", nil, "BPass"}, {"vfail", []string{"e"}, "!"}, {"vfail", []string{"z"}, "!"}, {"vfail", []string{"h"}, "!"},
 		{"nosuchplugin", nil, "?"}, {"vtest", []string{"q"}, "!"}, {"vtest", nil, "!"},
 	}
 	vname := func(s string) string { return vStr(s) }
